@@ -5,7 +5,9 @@ Translator part of the tie: regenerate lean/Acra/Gen/*.lean from what /repo's so
   * class / module constants are read by importing the module and evaluating an expression;
   * inline `struct` format literals are read from the AST of the named function, in source order,
     so a one-character edit to a literal such as ">HIHIHHH" changes the generated model constant;
-  * the binding structure of the deprecated Chapter10 package is read with `ast` (see TABLE_NS).
+  * the binding structure of the deprecated Chapter10 package is read with `ast` (see TABLE_NS);
+  * the pure integer / bytes helper functions listed in the `SRC` tables are translated from their
+    current source to Lean definitions (harness/translate.py -> lean/Acra/Gen/Src/*.lean).
 
 Each generated file is rewritten only when its text changes, so an unchanged source is a no-op
 for `lake build`.  Exit status 0 = everything regenerated; 1 = some item could not be extracted
@@ -224,6 +226,17 @@ def generate():
             changed += c or []
         except Exception as e:
             errors.append("%s: %r" % (getattr(fn, "__name__", "extra"), e))
+    # source translator: pure helper functions -> lean/Acra/Gen/Src/*.lean (harness/translate.py)
+    try:
+        try:
+            from . import translate
+        except ImportError:          # run as a script
+            import translate
+        e2, c2, _ = translate.generate()
+        errors += e2
+        changed += c2
+    except Exception as e:
+        errors.append("source translator: %r" % (e,))
     return errors, changed
 
 def main():
